@@ -188,6 +188,22 @@ def validators_alone(ctx: Ctx, sub, n: int) -> Dict[str, int]:
             raise RuntimeError("compare")
         __ge__ = __lt__ = __gt__ = __le__
 
+    class Unprintable:   # cannot be turned into text at all
+        def __str__(self):
+            raise RuntimeError("no text")
+        __repr__ = __str__
+
+        def __format__(self, spec):
+            raise RuntimeError("no text")
+
+    class UnprintableInt(int):   # an out-of-range int that cannot be turned into text
+        def __str__(self):
+            raise RuntimeError("no text")
+        __repr__ = __str__
+
+        def __format__(self, spec):
+            raise RuntimeError("no text")
+
     Position = sub.types.Position
     instances = [Plain(), Outer.Inner(), Position(line=0, character=0), None, 3, "s"]
     attributes = [attrs.fields(Position).line, "some_name", "", 7]
@@ -203,6 +219,8 @@ def validators_alone(ctx: Ctx, sub, n: int) -> Dict[str, int]:
         st.lists(st.integers(), max_size=3).map(tuple), st.sampled_from([(), (1,), (1, 2), ((),), ("%s",), ("a", "b", "c")]),
         st.frozensets(st.integers(), max_size=2), st.sets(st.text(max_size=2), max_size=2), st.binary(max_size=3).map(bytearray),
         st.sampled_from([range(3), "%s", "%d %d", "{}", "{0}", "{value}", b"%s", slice(1, 2), Ellipsis, NotImplemented]),
+        # values whose text is long, very long (beyond the interpreter's int-to-str limit), or not available
+        st.sampled_from([10**5000, -(10**5000), 10**4299, 2**20000, "x" * 100000, Unprintable(), UnprintableInt(2**40), UnprintableInt(-1)]),
     )
     for fname, (lo, hi) in (("integer_validator", RANGES["integer"]), ("uinteger_validator", RANGES["uinteger"])):
         fn = getattr(V, fname)
@@ -212,7 +230,12 @@ def validators_alone(ctx: Ctx, sub, n: int) -> Dict[str, int]:
             inst = instances[inst_i % len(instances)]
             attr = attributes[attr_i % len(attributes)]
             stats["calls"] += 1
-            case = {"validator": fname, "instance": repr(inst), "attribute": repr(attr), "value": repr(v)}
+            try:
+                shown = repr(v)
+                shown = shown if len(shown) < 200 else shown[:100] + f"... ({len(shown)} characters)"
+            except Exception:
+                shown = f"<{type(v).__name__} without repr>"
+            case = {"validator": fname, "instance": repr(inst), "attribute": repr(attr), "value": shown}
             try:
                 r = fn(inst, attr, v)
             except ValueError as e:
@@ -222,20 +245,20 @@ def validators_alone(ctx: Ctx, sub, n: int) -> Dict[str, int]:
                 if type(inst).__qualname__ not in msg or aname not in msg:
                     ctx.finding(("message", fname, "-"), f"ValueError does not name class/attribute: {msg!r}", case)
                 if isinstance(v, int) and not isinstance(v, bool) and lo <= v <= hi:
-                    ctx.finding(("wrong-verdict", fname, "rejects-in-range"), f"{v!r} rejected", case)
+                    ctx.finding(("wrong-verdict", fname, "rejects-in-range"), f"{shown} rejected", case)
                 return
             except Exception as e:
-                ctx.finding((f"raises:{type(e).__name__}", fname, "-"), f"{e!r} for value {v!r}", case)
+                ctx.finding((f"raises:{type(e).__name__}", fname, "-"), f"{e!r} for value {shown}", case)
                 return
             stats["returned"] += 1
             if r is not True:
-                ctx.finding(("wrong-return", fname, "-"), f"returned {r!r} for {v!r}", case)
+                ctx.finding(("wrong-return", fname, "-"), f"returned {r!r} for {shown}", case)
             if isinstance(v, int) and not isinstance(v, bool):
                 if not (lo <= v <= hi):
-                    ctx.finding(("wrong-verdict", fname, "accepts-out-of-range"), f"{v!r} accepted", case)
+                    ctx.finding(("wrong-verdict", fname, "accepts-out-of-range"), f"{shown} accepted", case)
             elif not isinstance(v, bool):
                 # a value that is not an int at all must not pass a range validator
-                ctx.finding(("wrong-verdict", fname, "accepts-non-int"), f"{v!r} ({type(v).__name__}) accepted", case)
+                ctx.finding(("wrong-verdict", fname, "accepts-non-int"), f"{shown} ({type(v).__name__}) accepted", case)
 
         mini(st.tuples(st.integers(0, 50), st.integers(0, 50), values), n, (ctx.seed, "C12v", fname), one)
     return dict(stats)
